@@ -195,6 +195,9 @@ def run_case(case):
                                 from fastparquet.util import reset_row_idx
                                 d2 = reset_row_idx(df)
                             pf.write_row_groups(d2, row_group_offsets=ao["rgo"], compression=ao["compression"])
+                except AttributeError as e:
+                    # not a refusal: the library tripped over its own state while appending a compatible frame
+                    return viol("append_crashed|%s|%s" % (scheme, exc_sig(e)), "append %d: %s" % (k, exc_detail(e)), labels=labels)
                 except Exception as e:
                     labels.append("append_raised")
                     return discard("append_raised:" + exc_sig(e), labels)
